@@ -422,6 +422,11 @@ func timedCopy(clientAddr net.Addr, clientConn net.PacketConn, targetConn *natco
 			}
 
 			debugUDPAddr(l, "Got response.", clientAddr, slog.Any("target", raddr))
+			// A SOCKS address has no room for an IPv6 zone. Drop it, or a link-local sender would
+			// be serialized as an over-long domain name that does not fit the header space.
+			if udpAddr, ok := raddr.(*net.UDPAddr); ok && udpAddr.Zone != "" {
+				raddr = &net.UDPAddr{IP: udpAddr.IP, Port: udpAddr.Port}
+			}
 			srcAddr := socks.ParseAddr(raddr.String())
 			addrStart := bodyStart - len(srcAddr)
 			// `plainTextBuf` concatenates the SOCKS address and body:
